@@ -116,8 +116,77 @@ def _fmin(a, b):
     return a if a <= b else b
 
 
+class C2D(object):
+    """A double[:, :] memoryview: bounds-checked element access, usable by numpy as an array;
+    every element read is reported to `observer` (if set)."""
+    __slots__ = ("a",)
+    observer = None
+
+    def __init__(self, a):
+        if isinstance(a, C2D):
+            a = a.a
+        a = np.asarray(a)
+        if a.dtype != np.float64:
+            raise ValueError("Buffer dtype mismatch, expected 'double' but got '%s'" % a.dtype)
+        if a.ndim != 2:
+            raise ValueError("Buffer has wrong number of dimensions (expected 2, got %d)" % a.ndim)
+        self.a = a
+
+    def __len__(self):
+        return self.a.shape[0]
+
+    def __array__(self, dtype=None, copy=None):
+        return self.a if dtype is None else self.a.astype(dtype)
+
+    def __getitem__(self, ij):
+        i, j = ij
+        i, j = int(i), int(j)
+        if i < 0 or j < 0 or i >= self.a.shape[0] or j >= self.a.shape[1]:
+            raise COutOfBounds("C out-of-bounds access: index (%d, %d), shape %s" % (i, j, self.a.shape))
+        if C2D.observer is not None:
+            C2D.observer(i, j)
+        return self.a[i, j]
+
+
+class CLong(object):
+    """A long[:] memoryview: bounds-checked; every write is reported to `observer` (if set)."""
+    __slots__ = ("a", "n")
+    observer = None
+
+    def __init__(self, a):
+        a = np.asarray(a)
+        if a.dtype.kind != "i" or a.ndim != 1:
+            raise ValueError("Buffer dtype mismatch, expected 'long' but got '%s'" % a.dtype)
+        self.a = np.array(a, dtype=np.int64)
+        self.n = self.a.shape[0]
+
+    def __len__(self):
+        return self.n
+
+    def __array__(self, dtype=None, copy=None):
+        return self.a if dtype is None else self.a.astype(dtype)
+
+    def _chk(self, i):
+        if i < 0 or i >= self.n:
+            raise COutOfBounds("C out-of-bounds access: index %d, length %d" % (i, self.n))
+
+    def __getitem__(self, i):
+        i = int(i)
+        self._chk(i)
+        return int(self.a[i])
+
+    def __setitem__(self, i, v):
+        i = int(i)
+        self._chk(i)
+        self.a[i] = int(v)
+        if CLong.observer is not None:
+            CLong.observer(i, int(v))
+
+
 def _unwrap(r):
     if isinstance(r, CArr):
+        return np.array(r.a)
+    if isinstance(r, (CLong, C2D)):
         return np.array(r.a)
     if isinstance(r, tuple):
         return tuple(_unwrap(x) for x in r)
@@ -135,7 +204,7 @@ def _public(f):
     return g
 
 
-_TYPES = ("double[:]", "double", "int", "bint", "long")
+_TYPES = ("double[:, :]", "double[:,:]", "double[:]", "double", "int", "bint", "long")
 
 
 def _split_params(s):
@@ -175,6 +244,8 @@ def _param(p):
 def _conv(name, ctype):
     if ctype == "double[:]":
         return "%s = __CArr(%s)" % (name, name)
+    if ctype in ("double[:, :]", "double[:,:]"):
+        return "%s = __C2D(%s)" % (name, name)
     if ctype == "double":
         return "%s = __f64(%s)" % (name, name)
     if ctype in ("int", "bint", "long"):
@@ -232,7 +303,7 @@ def translate(src, modname):
             i = j + 1
             continue
         # ---- cdef declarations in bodies
-        m = re.match(r"^cdef\s+(double\[:\]|double|int|bint|long)\s+(.*)$", stripped)
+        m = re.match(r"^cdef\s+(double\[:\]|double|int|bint|long\[:\]|long)\s+(.*)$", stripped)
         if m:
             ctype, rest = m.group(1), m.group(2)
             rest_nc = rest.split("#")[0].strip()
@@ -247,6 +318,8 @@ def translate(src, modname):
                 if ctype == "double[:]":
                     views.add(name)
                     out.append(indent + "%s = __CArr(%s)" % (name, expr))
+                elif ctype == "long[:]":
+                    out.append(indent + "%s = __CLong(%s)" % (name, expr))
                 elif ctype == "double":
                     out.append(indent + "%s = __f64(%s)" % (name, expr))
                 else:
@@ -323,6 +396,33 @@ def build(repo="/repo"):
             raise ShimError("transliteration of %s is not valid Python: %s" % (name, e))
         mods[full] = mod
     return mods
+
+
+def build_simann(repo, rand, rand_max=2147483647):
+    """the simulated-annealing kernel with an injected rand(): returns the shimmed module"""
+    import math
+    name = "cython_simulated_annealing"
+    path = os.path.join(repo, "pyspike", "cython", name + ".pyx")
+    with open(path) as f:
+        src = f.read()
+    code = translate(src, name)
+    mod = types.ModuleType("pyspike.cython." + name)
+    mod.__file__ = path + " (shim)"
+
+    def c_exp(x):
+        try:
+            return math.exp(x)
+        except OverflowError:
+            return float("inf")
+    mod.__dict__.update({"__CArr": CArr, "__C2D": C2D, "__CLong": CLong, "__f64": np.float64, "__public": _public,
+                         "rand": rand, "RAND_MAX": rand_max, "exp": c_exp, "fmod": math.fmod, "xrange": range})
+    try:
+        with warnings.catch_warnings():
+            warnings.simplefilter("ignore")
+            exec(compile(code, path + " (shim)", "exec"), mod.__dict__)
+    except SyntaxError as e:
+        raise ShimError("transliteration of %s is not valid Python: %s" % (name, e))
+    return mod
 
 
 _installed = {}
